@@ -15,6 +15,19 @@ package props
 // results share no interior node (nodes of the inserted values excepted); the first result is then
 // mutated destructively (names, literals, tokens, children) and the third evaluation must still equal the
 // reference.
+//
+// Strengthening (seeded changes C21-nested-unquote-stack-reversed, C21-classic-empty-list-shared):
+//   * unquote chains carry EVERY stack of operators {~unquote, ~unquote_splice}^(k-1) over every innermost
+//     operator at every depth (quick too), so the order of a re-built operator stack is observable;
+//   * nested quasiquotes are written in three styles: statement of a list ("pre"), only statement ("sole"),
+//     single-node position ("index": w[~quasiquote{...}]) — the list and the single-node code paths differ;
+//   * pairs of full-length chains in one template at depth 2 and 3;
+//   * forms for every node kind in its empty / minimal configuration (empty block, empty parameter list, bare
+//     return, empty declaration group, empty struct/interface/composite/call/switch/select/case, literals of every
+//     kind, ...): the node kinds and shapes covered by the templates are measured (see c21Shapes);
+//   * freshness compares the pointers of ALL nodes (leaves and empty lists included) between evaluations, the
+//     destructive mutation is also ADDITIVE (an element is injected into every list, empty ones included, and a
+//     node into every empty slot), and the template is also evaluated from a function called three times.
 
 import (
 	"encoding/json"
@@ -32,7 +45,7 @@ import (
 )
 
 func init() {
-	core.Register(&core.Check{ID: "C21", Level: "exploration", Workers: -1, Run: c21Run, Replay: c21Replay})
+	core.Register(&core.Check{ID: "C21", Level: "exploration", Workers: -1, Run: c21Run, Replay: c21Replay, Finish: c21Finish})
 }
 
 // ---------------------------------------------------------------------------------------------
@@ -356,6 +369,8 @@ type c21Tmpl struct {
 	Form  string `json:"form"`
 	Depth int    `json:"depth"`
 	Holes string `json:"holes"`
+	Style string `json:"style,omitempty"` // how nested quasiquotes are written: "" = pre, "sole", "index"
+	Site  string `json:"site,omitempty"`  // "" = the template is the evaluated expression, "func" = body of a function called repeatedly
 }
 
 type c21Form struct {
@@ -411,6 +426,10 @@ func c21Forms() []c21Form {
 var c21NodeE = []string{"x1", "xe", "mk()"}
 var c21ListE = []string{"l0", "l1", "l2", "lb2"}
 
+// reduced value alphabet of the pair-of-chains family
+var c21NodeR = []string{"x1"}
+var c21ListR = []string{"l0", "l2"}
+
 type c21Hole struct {
 	marker string // "@1E"
 	kind   byte   // E S A
@@ -429,6 +448,7 @@ func c21HolesOf(text string) []c21Hole {
 // hole kinds: E expression, S statement-list element, A expression-list element, T single statement (no list)
 // c21Fillers returns the texts that can fill a hole of the given kind at quasiquote depth d:
 // plain identifier first, then every unquote chain of length 1..d.
+// (historic alphabet: the outer operators of a chain are all the same; kept for C25 part D, which prints the results)
 func c21Fillers(kind byte, d int, idx int, full bool) []string {
 	out := []string{fmt.Sprintf("h%d", idx)}
 	chains := func(k int, inner string, e string) []string {
@@ -460,50 +480,236 @@ func c21Fillers(kind byte, d int, idx int, full bool) []string {
 	return out
 }
 
-func c21Templates(c *core.Ctx) []c21Tmpl {
-	var out []c21Tmpl
-	add := func(form string, depth int, holes string, body string) {
-		src := body
-		for i := 0; i < depth; i++ {
-			if i == 0 {
-				src = "~quasiquote{" + src + "}"
-			} else {
-				src = "~quasiquote{pre" + fmt.Sprint(i) + "; " + src + "}"
+// c21Chains returns every unquote chain of exactly k operators for a hole of the given kind: the k-1 outer
+// operators range over ALL of {~unquote, ~unquote_splice}^(k-1) (a splice operator needs a list position),
+// the innermost operator over ~unquote of every node value and — in list positions — ~unquote_splice of
+// every list value.
+func c21Chains(kind byte, k int, nodeE, listE []string) []string {
+	list := kind == 'S' || kind == 'A'
+	ops := []string{"~unquote"}
+	if list {
+		ops = append(ops, "~unquote_splice")
+	}
+	stacks := []string{""} // prefix texts "op{op{"
+	for i := 0; i < k-1; i++ {
+		var next []string
+		for _, s := range stacks {
+			for _, o := range ops {
+				next = append(next, s+o+"{")
 			}
 		}
-		out = append(out, c21Tmpl{ID: fmt.Sprintf("t%d", len(out)), Src: src, Form: form, Depth: depth, Holes: holes})
+		stacks = next
+	}
+	var out []string
+	for _, st := range stacks {
+		closing := strings.Repeat("}", k-1)
+		for _, e := range nodeE {
+			out = append(out, st+"~unquote{"+e+"}"+closing)
+		}
+		if list {
+			for _, l := range listE {
+				out = append(out, st+"~unquote_splice{"+l+"}"+closing)
+			}
+		}
+	}
+	return out
+}
+
+// c21ChainLen is the number of operators of a filler written by c21Chains (0 for a plain identifier).
+func c21ChainLen(filler string) int {
+	return strings.Count(filler, "~unquote{") + strings.Count(filler, "~unquote_splice{")
+}
+
+// c21FillersX: plain identifier, then every chain of length 1..d with every operator stack.
+func c21FillersX(kind byte, d int, idx int) []string {
+	out := []string{fmt.Sprintf("h%d", idx)}
+	for k := 1; k <= d; k++ {
+		out = append(out, c21Chains(kind, k, c21NodeE, c21ListE)...)
+	}
+	return out
+}
+
+// c21FormsX: node kinds in their empty / minimal / maximal configurations (every form has a hole, so that it
+// is evaluated as a genuine quasiquote at every depth).
+func c21FormsX() []c21Form {
+	return []c21Form{
+		// empty list nodes that have an identity
+		{"empty-block", "@1S; {}; @2S"},
+		{"empty-block-if", "if @1E {} else {}"},
+		{"empty-block-for", "for @1E {}"},
+		{"empty-block-nested", "if c { {}; { @1S } }"},
+		{"empty-params", "func() { @1S }"},
+		{"empty-func", "func() {}(@1A)"},
+		{"empty-func-results", "func() () { return @1A }"},
+		{"bare-return", "if @1E { return }"},
+		{"bare-return-last", "func() { @1S; return }"},
+		{"empty-var-group", "var (); @1S"},
+		{"empty-const-group", "const (); @1S"},
+		{"empty-type-group", "type (); @1S"},
+		{"empty-import-group", "import (); @1S"},
+		{"empty-struct", "var v struct{} = @1A"},
+		{"empty-interface", "@1E.(interface{})"},
+		{"empty-composite", "f(T{}, @1A)"},
+		{"empty-call", "@1E()"},
+		{"empty-switch", "switch @1E {}"},
+		{"empty-typeswitch", "switch @1E.(type) {}"},
+		{"empty-select", "select {}; @1S"},
+		{"empty-case", "switch { case @1A: }"},
+		{"empty-default", "switch @1E { default: }"},
+		{"empty-comm", "select { case <-@1E: ; default: }"},
+		{"empty-stmt", "for c { ; @1S }"},
+		{"empty-method", "~func (T) m() {}; @1S"},
+		{"empty-funcdecl", "~func fe() {}; @1S"},
+		{"empty-else-chain", "if a {} else if @1E {} else {}"},
+		// leaves of every kind
+		{"literals", "f(1, 2.5, 3i, 'c', \"s\", `r`, @1A)"},
+		{"branches", "L: for @1E { break; continue L; goto L; break L }"},
+		{"fallthrough", "switch @1E { case 1: fallthrough; case 2: @2S }"},
+		// optional children absent / present
+		{"for-ever", "for { @1S }"},
+		{"for-3", "for i := 0; @1E; i++ { @2S }"},
+		{"for-cond-post", "for ; @1E; i++ { @2S }"},
+		{"if-init", "if v := @1E; v { @2S } else if w { @3S } else { @4S }"},
+		{"switch-init", "switch v := @1E; v { case 1, 2: @2S; default: @3S }"},
+		{"switch-notag", "switch { case @1A: @2S; default: @3S }"},
+		{"type-switch", "switch v := @1E.(type) { case int, T: @2S; default: @3S }"},
+		{"select-full", "select { case v, ok := <-@1E: @2S; case c <- @3E: @4S; default: @5S }"},
+		{"range-kv", "for k, v := range @1E { @2S }"},
+		{"range-assign", "for k = range @1E { @2S }"},
+		{"range-novars", "for range @1E { @2S }"},
+		{"slice3", "@1E[@2E:@3E:@4E]"},
+		{"slice-open", "@1E[:]"},
+		{"slice-lo", "@1E[@2E:]"},
+		{"assign-op", "@1E += @2E"},
+		{"assign-multi", "a, b = @1A, @2A"},
+		{"dec", "@1E--"},
+		{"goto", "goto L; @1S"},
+		{"func-results", "func(a, b int) (x, y int) { return @1A, @2A }"},
+		{"func-variadic", "func(a int, b ...int) { @1S }"},
+		{"func-unnamed", "func(int, string) bool { return @1A }"},
+		{"method", "~func (r *T) m(p int) int { @1S; return @2A }"},
+		{"funcdecl", "~func fd(p int, q ...T) (r int) { @1S; return @2A }"},
+		{"funcdecl-nobody-args", "~func fd() { @1S }"},
+		{"array-type-var", "var v [@1E]int"},
+		{"map-type-var", "var v map[@1E]@2E"},
+		{"chan-type-var", "var v chan @1E"},
+		{"func-type-var", "var v func(@1E) @2E"},
+		{"const", "const c, d = @1A, @2A"},
+		{"const-typed", "const c int = @1A"},
+		{"var-group", "var ( a = @1A; b int; c, d T = @2A, @3A )"},
+		{"var-notype", "var v = @1A"},
+		{"var-novalue", "var v T; @1S"},
+		{"typespec", "type T struct{ a, b int; c string; E }; @1S"},
+		{"type-alias", "type T = int; @1S"},
+		{"type-group", "type ( T int; U = T ); @1S"},
+		{"import", "import ( \"fmt\"; m \"math\"; . \"os\"; _ \"io\" ); @1S"},
+		{"interface-type", "var v interface{ M(a int) int; N(); E } = @1A"},
+		{"func-type", "var fn func(a, b int, c ...string) (r int, e error) = @1A"},
+		{"chan-types", "f(make(chan int), make(chan<- int), make(<-chan int), @1A)"},
+		{"array-types", "f([]int{}, [3]int{1}, [...]int{1, 2}, map[string][]int{\"a\": {1}}, @1A)"},
+		{"pointer-type", "var p *T = @1A"},
+		{"composite-kv", "T{a: @1E, b: U{c: 1}, d: []int{}}"},
+		{"composite-nested", "[][]int{{@1A}, {}, {1, 2}}"},
+		{"closure-defer", "defer func() { @1S }()"},
+		{"closure-go", "go func(c chan int) { c <- @1E }(ch)"},
+		{"star-paren", "(*@1E).f(@2A)"},
+		{"typeassert-paren", "(@1E).(*T)"},
+		{"unary-ops", "f(+a, !b, ^c, @1A)"},
+		{"binary-ops", "a && b || c == d && @1E != e"},
+		{"labeled-block", "L: { @1S; break L }"},
+		{"decl-in-block", "for c { var a int; @1S }"},
+		{"define-in-block", "L: { a := @1E }"},
+	}
+}
+
+// c21WrapQuasi writes the nested quasiquotes around a body.
+func c21WrapQuasi(body string, depth int, style string) string {
+	src := body
+	for i := 0; i < depth; i++ {
+		switch {
+		case i == 0 || style == "sole":
+			src = "~quasiquote{" + src + "}"
+		case style == "index":
+			src = "~quasiquote{w" + fmt.Sprint(i) + "[" + src + "]}"
+		default:
+			src = "~quasiquote{pre" + fmt.Sprint(i) + "; " + src + "}"
+		}
+	}
+	return src
+}
+
+func c21Fill(text string, holes []c21Hole, fill func(j int) string) string {
+	body := text
+	for j, h := range holes {
+		body = strings.Replace(body, h.marker, fill(j), 1)
+	}
+	return body
+}
+
+// c21HandForm names a hand-written shape in signatures (the text itself: each shape is its own class).
+func c21HandForm(ext bool, src string) string {
+	if !ext {
+		return "hand"
+	}
+	return "hand(" + src + ")"
+}
+
+// c21Templates is the historic template set (also the domain of C25 part D).
+func c21Templates(c *core.Ctx) []c21Tmpl { return c21TemplatesOpt(c, false) }
+
+func c21TemplatesOpt(c *core.Ctx, ext bool) []c21Tmpl {
+	out := make([]c21Tmpl, 0, 1<<12)
+	if ext {
+		out = make([]c21Tmpl, 0, 1<<16)
+	}
+	add := func(form string, depth int, holes, style, site, body string) {
+		out = append(out, c21Tmpl{ID: fmt.Sprintf("t%d", len(out)), Src: c21WrapQuasi(body, depth, style), Form: form, Depth: depth, Holes: holes, Style: style, Site: site})
 	}
 	forms := c21Forms()
 	maxDepth := 3
+	if ext {
+		forms = append(forms, c21FormsX()...)
+		if c.Thorough() {
+			maxDepth = 4
+		}
+	}
 	for _, f := range forms {
 		holes := c21HolesOf(f.Text)
+		plainFill := func(j int) string { return fmt.Sprintf("h%d", j+1) }
 		// ~quote of the plain form
-		plain := f.Text
-		for i, h := range holes {
-			plain = strings.Replace(plain, h.marker, fmt.Sprintf("h%d", i+1), 1)
-		}
-		out = append(out, c21Tmpl{ID: fmt.Sprintf("t%d", len(out)), Src: "~quote{" + plain + "}", Form: f.Name, Depth: 0, Holes: "quote"})
+		out = append(out, c21Tmpl{ID: fmt.Sprintf("t%d", len(out)), Src: "~quote{" + c21Fill(f.Text, holes, plainFill) + "}", Form: f.Name, Depth: 0, Holes: "quote"})
 		for d := 1; d <= maxDepth; d++ {
 			full := c.Thorough() || d <= 2
 			fillers := make([][]string, len(holes))
 			for i, h := range holes {
-				fillers[i] = c21Fillers(h.kind, d, i+1, full)
+				if ext {
+					fillers[i] = c21FillersX(h.kind, d, i+1)
+				} else {
+					fillers[i] = c21Fillers(h.kind, d, i+1, full)
+				}
 			}
-			// (a) one active hole at a time (the others plain), every filler
-			for i := range holes {
-				for fi := range fillers[i] {
-					if fi == 0 && i > 0 {
-						continue // all-plain only once
-					}
-					body := f.Text
-					for j, h := range holes {
-						fill := fillers[j][0]
-						if j == i {
-							fill = fillers[i][fi]
+			styles := []string{""}
+			if ext && d >= 2 {
+				styles = append(styles, "sole", "index")
+			}
+			// (a) one active hole at a time (the others plain), every filler, every style of nesting
+			for _, style := range styles {
+				for i := range holes {
+					for fi := range fillers[i] {
+						if fi == 0 && i > 0 {
+							continue // all-plain only once
 						}
-						body = strings.Replace(body, h.marker, fill, 1)
+						if style != "" && fi > 0 && c.Quick() && c21ChainLen(fillers[i][fi]) != d {
+							continue // quick: the other styles of nesting only with the chains that reach the outermost quasiquote
+						}
+						body := c21Fill(f.Text, holes, func(j int) string {
+							if j == i {
+								return fillers[i][fi]
+							}
+							return fillers[j][0]
+						})
+						add(f.Name, d, fmt.Sprintf("%d:%d", i+1, fi), style, "", body)
 					}
-					add(f.Name, d, fmt.Sprintf("%d:%d", i+1, fi), body)
 				}
 			}
 			// (b) two active holes: every pair of fillers (depth 1; thorough: also depth 2)
@@ -512,26 +718,72 @@ func c21Templates(c *core.Ctx) []c21Tmpl {
 					for j := i + 1; j < len(holes); j++ {
 						for fi := 1; fi < len(fillers[i]); fi++ {
 							for fj := 1; fj < len(fillers[j]); fj++ {
-								body := f.Text
-								for k, h := range holes {
-									fill := fillers[k][0]
-									if k == i {
-										fill = fillers[i][fi]
-									} else if k == j {
-										fill = fillers[j][fj]
+								body := c21Fill(f.Text, holes, func(k int) string {
+									switch k {
+									case i:
+										return fillers[i][fi]
+									case j:
+										return fillers[j][fj]
 									}
-									body = strings.Replace(body, h.marker, fill, 1)
-								}
-								add(f.Name, d, fmt.Sprintf("%d:%d,%d:%d", i+1, fi, j+1, fj), body)
+									return fillers[k][0]
+								})
+								add(f.Name, d, fmt.Sprintf("%d:%d,%d:%d", i+1, fi, j+1, fj), "", "", body)
 							}
 						}
+					}
+				}
+			}
+			if !ext {
+				continue
+			}
+			// (c) two active holes at depth >= 2: every pair of full-length chains (every operator stack) over the
+			// reduced value alphabet — two deep splices / unquotes side by side
+			if d >= 2 && d <= 3 {
+				for i := 0; i < len(holes); i++ {
+					listR := c21ListR
+					if d == 3 && c.Quick() {
+						listR = c21ListR[1:]
+					}
+					ci := c21Chains(holes[i].kind, d, c21NodeR, listR)
+					for j := i + 1; j < len(holes); j++ {
+						cj := c21Chains(holes[j].kind, d, c21NodeR, listR)
+						for fi := range ci {
+							for fj := range cj {
+								body := c21Fill(f.Text, holes, func(k int) string {
+									switch k {
+									case i:
+										return ci[fi]
+									case j:
+										return cj[fj]
+									}
+									return fillers[k][0]
+								})
+								add(f.Name, d, fmt.Sprintf("%d:c%d,%d:c%d", i+1, fi, j+1, fj), "", "", body)
+							}
+						}
+					}
+				}
+			}
+			// (d) the template as body of a function that is called three times: all-plain, and the first hole filled
+			// with the first full-length chain of every innermost operator
+			if d <= 3 && len(holes) > 0 {
+				add(f.Name, d, "plain", "", "func", c21Fill(f.Text, holes, plainFill))
+				for _, ch := range [][]string{c21Chains(holes[0].kind, d, c21NodeR[:1], nil), c21Chains(holes[0].kind, d, nil, c21ListR[1:])} {
+					if len(ch) > 0 {
+						body := c21Fill(f.Text, holes, func(k int) string {
+							if k == 0 {
+								return ch[0]
+							}
+							return fillers[k][0]
+						})
+						add(f.Name, d, "1:f", "", "func", body)
 					}
 				}
 			}
 		}
 	}
 	// a few hand-written shapes: quote inside quasiquote, unquote around a nested quasiquote, shorthand syntax
-	for _, src := range []string{
+	hand := []string{
 		"~quasiquote{~quote{a + ~unquote{x1}}}",
 		"~quasiquote{~quasiquote{a; ~unquote{b}; ~unquote{~unquote{x1}}; ~unquote_splice{~unquote_splice{l2}}; ~unquote{~unquote_splice{l2}}}}",
 		"~\"{1 + ~,xe}",
@@ -553,8 +805,43 @@ func c21Templates(c *core.Ctx) []c21Tmpl {
 		"~quasiquote{case ~unquote{x1}: ~unquote_splice{l2}}",
 		"~quasiquote{type T struct{ a ~unquote{x1} }}",
 		"~quasiquote{func f(p ~unquote{x1}) ~unquote{xe} { ~unquote_splice{lb2} }}",
-	} {
-		out = append(out, c21Tmpl{ID: fmt.Sprintf("t%d", len(out)), Src: src, Form: "hand", Depth: strings.Count(src, "~quasiquote") + strings.Count(src, "~\""), Holes: "hand"})
+	}
+	if ext {
+		hand = append(hand,
+			"~\"~\"~\"{a; ~,~,@~,@l2; b}",
+			"~\"~\"~\"{a; ~,@~,~,@l2; b}",
+			"~\"~\"~\"{a; ~,~,~,x1; ~,@~,@~,@l2; b}",
+			"~quasiquote{{}}",
+			"~quasiquote{func() {}}",
+			"~quasiquote{return}",
+			"~quasiquote{var ()}",
+			"~quasiquote{var v struct{}}",
+			"~quasiquote{x.(interface{})}",
+			"~quasiquote{~func f() {}}",
+			"~quasiquote{~func f(p ~unquote{x1}) ~unquote{xe} { ~unquote_splice{lb2} }}",
+			"~quasiquote{f()}",
+			"~quasiquote{T{}}",
+			"~quasiquote{for {}}",
+			"~quasiquote{select {}}",
+			"~quasiquote{switch {}}",
+			"~quasiquote{case 1:}",
+			"~quasiquote{default:}",
+			"~quasiquote{x}",
+			"~quasiquote{1}",
+			"~quasiquote{\"s\"}",
+			"~quasiquote{break}",
+			"~quasiquote{~quasiquote{}}",
+			"~quasiquote{~quasiquote{{}}}",
+			"~quasiquote{~quasiquote{~unquote{}}}",
+			"~quasiquote{a; ~quasiquote{return; ~unquote{f()}; ~unquote{~unquote{x1}}}}",
+			"~quasiquote{a; ~quasiquote{b; ~unquote{fe(func() {}, T{}, struct{}{})}; ~unquote{~unquote{x1}}}}",
+			"~quasiquote{~quasiquote{~unquote{func() { return }}}}",
+			"~quasiquote{w[~quasiquote{~unquote{func() { for {}; select {}; switch {} }}}]}",
+			"~quasiquote{a; ~quasiquote{b; ~quasiquote{c; ~unquote{~unquote{func() {}}}; ~unquote{~unquote{~unquote_splice{l2}}}}}}",
+		)
+	}
+	for _, src := range hand {
+		out = append(out, c21Tmpl{ID: fmt.Sprintf("t%d", len(out)), Src: src, Form: c21HandForm(ext, src), Depth: strings.Count(src, "~quasiquote") + strings.Count(src, "~\""), Holes: "hand"})
 	}
 	return out
 }
@@ -566,6 +853,16 @@ type c21Runner struct {
 	name string
 	// prepare returns a function that evaluates the (once parsed / compiled) template
 	prepare func(src string) func() interface{}
+}
+
+// c21SiteFunc is the function the "func" site declares (redeclared for every template) and the call evaluated three times.
+const c21SiteFunc = "c21site"
+
+func c21SiteSrc(t *c21Tmpl) (decl, src string) {
+	if t.Site == "func" {
+		return "func " + c21SiteFunc + "() ast.Node { return " + t.Src + " }", c21SiteFunc + "()"
+	}
+	return "", t.Src
 }
 
 func c21Runners(w *c20World) []c21Runner {
@@ -593,6 +890,19 @@ func c21Runners(w *c20World) []c21Runner {
 	}
 }
 
+// c21Declare evaluates a declaration in one engine.
+func c21Declare(w *c20World, engine, decl string) {
+	if decl == "" {
+		return
+	}
+	switch engine {
+	case "fast":
+		w.fast.Eval(decl)
+	case "classic":
+		w.classic.Eval(decl)
+	}
+}
+
 func c21AsNode(v interface{}) (ast.Node, string) {
 	switch x := v.(type) {
 	case nil:
@@ -605,7 +915,8 @@ func c21AsNode(v interface{}) (ast.Node, string) {
 	return nil, fmt.Sprintf("%T", v)
 }
 
-// interiorPtrs collects the non-leaf nodes of a tree, not descending into nodes of `skip`.
+// c21Ptrs collects the nodes of a tree (leaves and empty lists included unless interiorOnly), not descending
+// into nodes of `skip`.
 func c21Ptrs(n ast.Node, skip map[ast.Node]bool, interiorOnly bool) map[ast.Node]bool {
 	out := map[ast.Node]bool{}
 	astWalk(n, func(x ast.Node) bool {
@@ -625,7 +936,47 @@ func c21Ptrs(n ast.Node, skip map[ast.Node]bool, interiorOnly bool) map[ast.Node
 	return out
 }
 
+var (
+	rtDecl = reflect.TypeOf((*ast.Decl)(nil)).Elem()
+	rtSpec = reflect.TypeOf((*ast.Spec)(nil)).Elem()
+)
+
+// c21Injected builds a recognisable node assignable to a slot of static type t (nil if there is none).
+func c21Injected(t reflect.Type) ast.Node {
+	inj := func() *ast.Ident { return idn("INJECTED") }
+	switch t {
+	case rtExpr, rtNode:
+		return inj()
+	case rtStmt:
+		return &ast.ExprStmt{X: inj()}
+	case rtDecl:
+		return &ast.GenDecl{Tok: token.VAR, Specs: []ast.Spec{&ast.ValueSpec{Names: []*ast.Ident{inj()}}}}
+	case rtSpec:
+		return &ast.ValueSpec{Names: []*ast.Ident{inj()}}
+	case rtBlockStmt:
+		return &ast.BlockStmt{List: []ast.Stmt{&ast.ExprStmt{X: inj()}}}
+	}
+	switch t {
+	case reflect.TypeOf((*ast.Ident)(nil)):
+		return inj()
+	case reflect.TypeOf((*ast.Field)(nil)):
+		return &ast.Field{Type: inj()}
+	case reflect.TypeOf((*ast.FieldList)(nil)):
+		return &ast.FieldList{List: []*ast.Field{{Type: inj()}}}
+	case reflect.TypeOf((*ast.BasicLit)(nil)):
+		return &ast.BasicLit{Kind: token.STRING, Value: "\"INJECTED\""}
+	case reflect.TypeOf((*ast.FuncType)(nil)):
+		return &ast.FuncType{Params: &ast.FieldList{List: []*ast.Field{{Type: inj()}}}}
+	case reflect.TypeOf((*ast.CallExpr)(nil)):
+		return &ast.CallExpr{Fun: inj()}
+	}
+	return nil
+}
+
 // c21Mutate destroys a tree in place (post-order), leaving alone the subtrees rooted at nodes of skip.
+// Every node is changed visibly whatever its shape: names, literals, tokens and flags are altered, present
+// children removed, ABSENT children and the elements of every list — empty ones included — replaced by an
+// injected node (an empty block, an empty parameter list or a bare return have nothing else to alter).
 func c21Mutate(n ast.Node, skip map[ast.Node]bool) {
 	if isNilNode(n) || skip[n] {
 		return
@@ -644,14 +995,43 @@ func c21Mutate(n ast.Node, skip map[ast.Node]bool) {
 		case fkInt:
 			f.SetInt(0)
 		case fkNode:
-			f.Set(reflect.Zero(f.Type()))
+			if rvNode(f) != nil {
+				f.Set(reflect.Zero(f.Type()))
+			} else if inj := c21Injected(f.Type()); inj != nil {
+				f.Set(reflect.ValueOf(inj))
+			}
 		case fkSlice:
 			for i, k := 0, f.Len(); i < k; i++ {
-				f.Index(i).Set(reflect.Zero(f.Type().Elem()))
+				f.Index(i).Set(reflect.Zero(f.Type().Elem())) // visible through any alias of the backing array
 			}
-			f.Set(reflect.Zero(f.Type()))
+			if inj := c21Injected(f.Type().Elem()); inj != nil {
+				s := reflect.MakeSlice(f.Type(), 1, 1)
+				s.Index(0).Set(reflect.ValueOf(inj))
+				f.Set(s)
+			} else {
+				f.Set(reflect.Zero(f.Type()))
+			}
 		}
 	}
+}
+
+// c21SharedClass names the kinds of the nodes two results share: "BlockStmt(empty),Ident".
+func c21SharedClass(shared []ast.Node) string {
+	set := map[string]int{}
+	for _, x := range shared {
+		name := astTypeName(x)
+		leaf := true
+		astChildren(x, func(ast.Node) { leaf = false })
+		if leaf {
+			switch x.(type) {
+			case *ast.Ident, *ast.BasicLit, *ast.EmptyStmt, *ast.BranchStmt:
+			default:
+				name += "(empty)"
+			}
+		}
+		set[name]++
+	}
+	return strings.Join(sortedKeys(set), ",")
 }
 
 type c21Case struct {
@@ -695,6 +1075,10 @@ func c21RunOne(c *core.Ctx, w *c20World, runners []c21Runner, values map[ast.Nod
 	c.Count("templates_run", 1)
 	kind := c21Kind(t)
 	ctxSig := fmt.Sprintf("%s|depth%d|%s", t.Form, t.Depth, kind)
+	if t.Style != "" {
+		ctxSig += "|" + t.Style
+	}
+	decl, evalSrc := c21SiteSrc(t)
 	sig := func(engine, class string) string {
 		s := "C21|" + engine + "|" + class
 		if os.Getenv("VERIF_DEBUG_SIGS") != "" {
@@ -708,7 +1092,7 @@ func c21RunOne(c *core.Ctx, w *c20World, runners []c21Runner, values map[ast.Nod
 		c.Eval(1)
 		var r1, r2, r3 interface{}
 		var run func() interface{}
-		if p := core.Catch(func() { run = rn.prepare(t.Src); r1 = run() }); p != nil {
+		if p := core.Catch(func() { c21Declare(w, rn.name, decl); run = rn.prepare(evalSrc); r1 = run() }); p != nil {
 			c.Violation(sig(rn.name, ctxSig+"|fails|"+c21MsgClass(fmt.Sprint(p))), fmt.Sprintf("%s (%s): evaluation fails: %v; reference: %s", t.Src, rn.name, clip(fmt.Sprint(p), 300), wantDump), cas)
 			continue
 		}
@@ -740,23 +1124,34 @@ func c21RunOne(c *core.Ctx, w *c20World, runners []c21Runner, values map[ast.Nod
 			c.Violation(sig(rn.name, ctxSig+"|second-evaluation-differs"), fmt.Sprintf("%s (%s): second evaluation gives %s, expected %s", t.Src, rn.name, astDump(n2), wantDump), cas)
 			continue
 		}
-		p1, p2 := c21Ptrs(n1, values, true), c21Ptrs(n2, values, true)
-		shared := 0
-		var example ast.Node
-		for x := range p1 {
-			if p2[x] {
-				shared++
-				if example == nil {
-					example = x
+		// every node — leaves and empty lists included — must be a new one (the inserted values excepted)
+		p1, p2 := c21Ptrs(n1, values, false), c21Ptrs(n2, values, false)
+		var sharedNodes []ast.Node
+		sharedInterior := 0
+		astWalk(n1, func(x ast.Node) bool { // deterministic order
+			if values[x] {
+				return false
+			}
+			if p1[x] && p2[x] {
+				sharedNodes = append(sharedNodes, x)
+				leaf := true
+				astChildren(x, func(ast.Node) { leaf = false })
+				if !leaf {
+					sharedInterior++
 				}
 			}
-		}
+			return true
+		})
+		shared := len(sharedNodes)
 		if shared > 0 {
-			cls := "quasiquote-not-fresh|shared-interior-nodes|" + t.Form
+			cls := "quasiquote-not-fresh|shared-nodes|" + c21SharedClass(sharedNodes)
+			if sharedInterior > 0 {
+				cls = "quasiquote-not-fresh|shared-interior-nodes|" + t.Form
+			}
 			if kind == "quote" {
 				cls = "quote-not-fresh"
 			}
-			c.Violation(sig(rn.name, cls), fmt.Sprintf("%s (%s): two evaluations share %d interior nodes, e.g. %s", t.Src, rn.name, shared, astBrief(example)), cas)
+			c.Violation(sig(rn.name, cls), fmt.Sprintf("%s (%s%s): two evaluations share %d nodes (%s), e.g. %s", t.Src, rn.name, c21SiteNote(t), shared, c21SharedClass(sharedNodes), astBrief(sharedNodes[0])), cas)
 		}
 		c21Mutate(n1, values)
 		if p := core.Catch(func() { r3 = run() }); p != nil {
@@ -768,14 +1163,39 @@ func c21RunOne(c *core.Ctx, w *c20World, runners []c21Runner, values map[ast.Nod
 			cls := "quasiquote-not-fresh|mutation-visible|" + t.Form
 			if kind == "quote" {
 				cls = "quote-not-fresh"
-			} else if shared == 0 && c21OnlyLeavesDiffer(want, n3) {
+			} else if sharedInterior == 0 && c21OnlyLeavesDiffer(want, n3) {
 				cls = "quasiquote-leaves-shared-with-template" // interior nodes are fresh, identifiers / literals are the template's own nodes
 			}
 			c.Violation(sig(rn.name, cls), fmt.Sprintf("%s (%s): after mutating the first result the next evaluation gives %s, expected %s [%s]", t.Src, rn.name, astDump(n3), wantDump, d), cas)
+			continue
+		}
+		// results 2 and 3 (a tree cached from the second evaluation on would pass the comparison of 1 and 2)
+		if shared == 0 {
+			p3 := c21Ptrs(n3, values, false)
+			var later []ast.Node
+			astWalk(n2, func(x ast.Node) bool {
+				if values[x] {
+					return false
+				}
+				if p2[x] && p3[x] {
+					later = append(later, x)
+				}
+				return true
+			})
+			if len(later) > 0 {
+				cls := "quasiquote-not-fresh|later-evaluations-share-nodes|" + c21SharedClass(later)
+				if kind == "quote" {
+					cls = "quote-not-fresh"
+				}
+				c.Violation(sig(rn.name, cls), fmt.Sprintf("%s (%s%s): the second and third evaluation share %d nodes (%s), e.g. %s", t.Src, rn.name, c21SiteNote(t), len(later), c21SharedClass(later), astBrief(later[0])), cas)
+			}
 		}
 	}
 	if kind != "plain" && kind != "quote" {
-		c.Nontrivial(t.Src)
+		c.Nontrivial(t.Site + "|" + t.Src)
+	}
+	if t.Site != "" {
+		c.Count("templates_run_in_"+t.Site, 1)
 	}
 	return results
 }
@@ -791,6 +1211,13 @@ func c21OnlyLeavesDiffer(want, got ast.Node) bool {
 		}
 		return n
 	}}) == ""
+}
+
+func c21SiteNote(t *c21Tmpl) string {
+	if t.Site == "func" {
+		return ", returned by a function called repeatedly"
+	}
+	return ""
 }
 
 func c21MsgClass(msg string) string {
@@ -832,15 +1259,30 @@ func c21Values(w *c20World) map[ast.Node]bool {
 }
 
 func c21Run(c *core.Ctx) {
-	c.Rule("templates = 38 base forms × nesting depth 1..3 × every hole (expression, statement-list, expression-list position) × every filler (plain, ~unquote of 3 node-valued expressions, ~unquote_splice of 4 lists, as unquote chains of length 1..depth) with one active hole, all filler pairs for two active holes (depth 1; thorough depth 2), ~quote of every form, hand-written shorthand/nesting shapes; " +
-		"each template is compiled once and evaluated three times in the fast and the classic interpreter; non-trivial = distinct templates containing an unquote or unquote_splice that were evaluated and compared with the reference")
+	c.Rule("templates = 123 base forms (40 general, 3 of which the forked parser never accepts + 83 node kinds in empty / minimal / maximal configuration; every go/ast node kind that can be written in a quasiquote occurs, see template_node_kinds_missing) × nesting depth 1..3 (thorough 4) × style of nesting (inner quasiquote as element of a statement list, as only statement, in a single-node position) × every hole (expression, statement-list, expression-list position) × every filler (plain, ~unquote of 3 node-valued expressions, ~unquote_splice of 4 lists, as unquote chains of length 1..depth under EVERY stack of outer operators {~unquote,~unquote_splice}^(k-1)) with one active hole; all filler pairs for two active holes (depth 1; thorough depth 2); all pairs of full-length chains over a reduced value alphabet (depth 2, 3); quick restricts the second and third style of nesting to the plain form and the chains that reach the outermost quasiquote; the template returned by a function called three times; ~quote of every form; hand-written shorthand/nesting shapes; " +
+		"each template is compiled once and evaluated three times in the fast and the classic interpreter: results 1 and 2 share no node at all (leaves and empty lists included), result 1 is then destroyed (every field altered, an element injected into every list and every empty slot), result 3 must still equal the reference and share no node with result 2; non-trivial = distinct (site, template) containing an unquote or unquote_splice that were evaluated and compared with the reference")
 	c.Assume("templates the forked parser rejects (unquote in a position where the grammar wants a type or a simple statement) are dropped and counted",
 		"inserted values are shared, not copied (as in Lisp): their nodes are excluded from the freshness check")
 	w := newC20World()
 	values := c21Values(w)
 	runners := c21Runners(w)
-	tmpls := c21Templates(c)
+	tmpls := c21TemplatesOpt(c, true)
 	c.Set("templates_generated", len(tmpls))
+	if os.Getenv("VERIF_DEBUG_SIGS") != "" {
+		fam := map[string]int{}
+		for _, t := range tmpls {
+			k := "single"
+			if strings.Contains(t.Holes, ":c") {
+				k = "chain-pair"
+			} else if strings.Contains(t.Holes, ",") {
+				k = "pair"
+			}
+			fam[fmt.Sprintf("depth%d style=%s site=%s %s", t.Depth, t.Style, t.Site, k)]++
+		}
+		for _, k := range sortedKeys(fam) {
+			fmt.Printf("FAMILY %s\t%d\n", k, fam[k])
+		}
+	}
 	for i := range tmpls {
 		if !c.Mine(i) {
 			continue
@@ -853,6 +1295,80 @@ func c21Run(c *core.Ctx) {
 			c.Sample(map[string]interface{}{"template": tmpls[i].Src})
 		}
 	}
+}
+
+// c21Finish measures what the templates contain: the go/ast node kinds and the shapes (kind × list field empty /
+// one / several elements × optional child absent / present) that occur in the quoted part of the templates.
+func c21Finish(c *core.Ctx) {
+	kinds, shapes := map[string]int{}, map[string]int{}
+	forms := map[string]int{}
+	for _, t := range c21TemplatesOpt(c, true) {
+		forms[t.Form] |= 0
+		_, nodes, err, panicked := forkParse("tmpl.go", []byte(t.Src), 0)
+		if err != nil || panicked != nil || len(nodes) != 1 {
+			continue
+		}
+		forms[t.Form]++
+		astWalk(nodes[0], func(x ast.Node) bool {
+			if u, ok := x.(*ast.UnaryExpr); ok && (u.Op == etoken.UNQUOTE || u.Op == etoken.UNQUOTE_SPLICE) {
+				if _, ok := u.X.(*ast.FuncLit); ok {
+					return false // evaluated code, not template
+				}
+			}
+			v := reflect.ValueOf(x).Elem()
+			p := astPlanOf(v.Type())
+			kinds[p.Name]++
+			for _, af := range p.Fields {
+				f := v.Field(af.Idx)
+				switch af.Kind {
+				case fkNode:
+					if rvNode(f) == nil {
+						shapes[p.Name+"."+af.Name+"=absent"]++
+					} else {
+						shapes[p.Name+"."+af.Name+"=present"]++
+					}
+				case fkSlice:
+					switch f.Len() {
+					case 0:
+						shapes[p.Name+"."+af.Name+"=[]"]++
+					case 1:
+						shapes[p.Name+"."+af.Name+"=[1]"]++
+					default:
+						shapes[p.Name+"."+af.Name+"=[2+]"]++
+					}
+				}
+			}
+			return true
+		})
+	}
+	c.Set("template_node_kinds", len(kinds))
+	c.Set("template_node_shapes", len(shapes))
+	var missing, unparsed []string
+	for _, t := range c22NodeTypes() {
+		switch t.Name() {
+		case "BadDecl", "BadExpr", "BadStmt", "File", "Package": // cannot be written inside a quasiquote
+			continue
+		}
+		if kinds[t.Name()] == 0 {
+			missing = append(missing, t.Name())
+		}
+	}
+	for _, f := range sortedKeys(forms) {
+		if forms[f] == 0 {
+			unparsed = append(unparsed, f)
+		}
+	}
+	c.Set("template_node_kinds_missing", strings.Join(missing, ","))
+	c.Set("template_forms_never_parsed", strings.Join(unparsed, ","))
+	c.Set("template_empty_list_shapes", strings.Join(func() []string {
+		var out []string
+		for _, k := range sortedKeys(shapes) {
+			if strings.HasSuffix(k, "=[]") {
+				out = append(out, strings.TrimSuffix(k, "=[]"))
+			}
+		}
+		return out
+	}(), ","))
 }
 
 func c21Replay(c *core.Ctx, raw json.RawMessage) {
